@@ -17,7 +17,7 @@ def run(tier, seed):
     n, depth = (400, 4) if tier == "quick" else (5000, 5)
     stimuli = []
     for k, (cnt, dep) in enumerate(((n, depth), (n // 4, depth + 1))):
-        p = subprocess.run([vdrive, "c01", "gen", str(seed * 10 + k), str(cnt), str(dep), "defs"], capture_output=True, timeout=900)
+        p = subprocess.run([vdrive, "c01", "gen", str(seed * 10 + k), str(cnt), str(dep), "defs"], capture_output=True, cwd=common.scratch(), timeout=900)
         if p.returncode != 0:
             raise common.Infra("c01 gen failed: " + p.stderr.decode(errors="replace")[-1000:])
         for l in p.stdout.decode().splitlines():
